@@ -456,6 +456,80 @@ fn run_sweep<C: AnsCombo>(head: &[&str], w: u32, s: u32) -> String {
     format!("{:x} {:x}", count, h)
 }
 
+/// `ansr W S | data | op …`: `from_reversed_compressed` (data is read front to back; a
+/// `Reverse<Cursor>` backend); `ansi W S | data | op …`: `from_reversed_compressed_iter`;
+/// `ansb W S | data | op …`: `from_binary_slice` (borrowed slice).
+fn run_glue<C: AnsCombo>(kind: &str, segs: &[Vec<&str>]) -> String {
+    use constriction::backends::Reverse;
+    let l = match segs.get(1).and_then(|s| s.first()).and_then(|s| parse_list(s)) { Some(l) => l, None => return "bad-op".into() };
+    let data = words::<C::W>(&l);
+    let mut outs: Vec<String> = vec!["ok".into()];
+    macro_rules! ops {
+        ($coder:ident, $seekable:expr) => {
+            for seg in &segs[2..] {
+                let r = guarded(|| -> Option<String> {
+                    Some(match seg.as_slice() {
+                        ["dec", b, p, cdf] => C::dec(&mut $coder, parse_hex(b)? as u32, parse_hex(p)? as u32, &parse_list(cdf)?).unwrap_or("unsupported".into()),
+                        ["state"] => hex(to_u128($coder.state())),
+                        ["empty"] => format!("{}", $coder.is_empty()),
+                        _ => return None,
+                    })
+                });
+                match r {
+                    Ok(Some(s)) => outs.push(s),
+                    Ok(None) => { outs.push("bad-op".into()); break; }
+                    Err(class) => { outs.push(class.into()); break; }
+                }
+            }
+        };
+    }
+    match kind {
+        "ansr" => {
+            let mut coder: AnsCoder<C::W, C::S, Reverse<Cursor<C::W, Vec<C::W>>>> = match AnsCoder::from_reversed_compressed(data) {
+                Ok(c) => c,
+                Err(_) => return "err".into(),
+            };
+            for seg in &segs[2..] {
+                let r = guarded(|| -> Option<String> {
+                    Some(match seg.as_slice() {
+                        ["dec", b, p, cdf] => C::dec(&mut coder, parse_hex(b)? as u32, parse_hex(p)? as u32, &parse_list(cdf)?).unwrap_or("unsupported".into()),
+                        ["state"] => hex(to_u128(coder.state())),
+                        ["empty"] => format!("{}", coder.is_empty()),
+                        ["pos"] => {
+                            let (l, s) = coder.pos();
+                            format!("{} {}", hex(l as u128), hex(to_u128(s)))
+                        }
+                        ["seek", l, s] => match coder.seek((parse_hex(l)? as usize, from_u128(parse_hex(s)?))) {
+                            Ok(()) => "ok".into(),
+                            Err(()) => "err".into(),
+                        },
+                        _ => return None,
+                    })
+                });
+                match r {
+                    Ok(Some(s)) => outs.push(s),
+                    Ok(None) => { outs.push("bad-op".into()); break; }
+                    Err(class) => { outs.push(class.into()); break; }
+                }
+            }
+        }
+        "ansi" => {
+            let it = data.into_iter().map(Ok::<C::W, std::convert::Infallible>);
+            let mut coder = match AnsCoder::<C::W, C::S, _>::from_reversed_compressed_iter(it) {
+                Ok(c) => c,
+                Err(_) => return "err".into(),
+            };
+            ops!(coder, false);
+        }
+        "ansb" => {
+            let mut coder = AnsCoder::<C::W, C::S, _>::from_binary_slice(&data);
+            ops!(coder, false);
+        }
+        _ => return "bad-op".into(),
+    }
+    outs.join(" | ")
+}
+
 pub fn run(segs: &[Vec<&str>]) -> String {
     let head = &segs[0];
     if head.len() < 3 {
@@ -473,6 +547,7 @@ pub fn run(segs: &[Vec<&str>]) -> String {
                 "ansc" if head.len() == 4 => run_cursor::<$C>(segs, false),
                 "ansd" if head.len() == 3 && segs.len() >= 2 => run_cursor::<$C>(segs, true),
                 "ansspec" if head.len() == 3 => run_spec::<$C>(segs),
+                "ansr" | "ansi" | "ansb" if head.len() == 3 && segs.len() >= 2 => run_glue::<$C>(kind, segs),
                 "anssweep" if head.len() == 7 => run_sweep::<$C>(head, w as u32, s as u32),
                 _ => "bad-op".into(),
             }
@@ -716,6 +791,42 @@ fn gen_seekdec_line(rng: &mut Rng, w: u32, s: u32, bps: &[(u32, Vec<u32>)]) -> S
     line
 }
 
+fn gen_glue_line(rng: &mut Rng, w: u32, s: u32, bps: &[(u32, Vec<u32>)]) -> String {
+    let kind = *rng.pick(&["ansr", "ansi", "ansb"]);
+    let n = (rng.next() % 7) as usize;
+    let mut ws = gen_words(rng, w, n);
+    if kind != "ansb" && rng.chance(7, 8) {
+        // reversed data: the *first* word is the top of the stack and must not be zero
+        if let Some(f) = ws.first_mut() {
+            if *f == 0 {
+                *f = 1 + rng.below(pow2(w) - 1);
+            }
+        }
+    }
+    let mut line = format!("{} {:x} {:x} | {}", kind, w, s, show_list(ws));
+    let (b, p) = pick_bp(rng, bps);
+    let cdf = gen_cdf(rng, p);
+    let k = rng.next() % 12;
+    for _ in 0..k {
+        let op = match rng.next() % 8 {
+            0..=4 => format!("dec {:x} {:x} {}", b, p, show_list(cdf.clone())),
+            5 if kind == "ansr" => {
+                let pos = rng.below(n as u128 + 2);
+                let lo = pow2(s - w);
+                let st = lo.wrapping_add(rng.bits_biased(s - w));
+                let st = if s < 128 { st & (pow2(s) - 1) } else { st };
+                format!("seek {:x} {:x}", pos, st.max(lo))
+            }
+            6 if kind == "ansr" => "pos".into(),
+            _ => "state".into(),
+        };
+        line.push_str(" | ");
+        line.push_str(&op);
+    }
+    line.push_str(" | state | empty");
+    line
+}
+
 fn gen_spec_line(rng: &mut Rng, w: u32, s: u32, bps: &[(u32, Vec<u32>)]) -> String {
     let mut line = format!("ansspec {:x} {:x}", w, s);
     let n = rng.next() % 40;
@@ -798,6 +909,7 @@ pub fn gen(rng: &mut Rng, tier: &str, out: &mut Vec<String>) {
             out.push(gen_cursor_line(rng, w, s, &bps));
             out.push(gen_seekdec_line(rng, w, s, &bps));
             out.push(gen_spec_line(rng, w, s, &bps));
+            out.push(gen_glue_line(rng, w, s, &bps));
         }
     }
 }
